@@ -89,13 +89,18 @@ fn main() {
     });
     let code = match a.id.as_str() {
         "C01" => go(props::c01::C01, &a),
+        "C02" => go(props::c02::C02, &a),
         "C03" => go(props::c03::C03, &a),
         "C04" => go(props::c04::C04, &a),
         "C05" => go(props::c05::C05, &a),
         "C06" => go(props::c06::C06, &a),
         "C07" => go(props::c07::C07, &a),
         "C08" => go(props::c08::C08, &a),
+        "C09" => go(props::c09::C09, &a),
+        "C10" => go(props::c10::C10, &a),
+        "C11" => go(props::c11::C11, &a),
         "C16" => go(props::c16::C16, &a),
+        "C17" => go(props::c17::C17, &a),
         _ => {
             eprintln!("unknown property {}", a.id);
             2
